@@ -30,6 +30,11 @@ func main() {
 			os.Exit(2)
 		}
 		obls, as := fe.FrameObligations(os.Args[2:], fe.AutoReadOnly(), nil)
+		if os.Getenv("GOVC_LIST_FRESH") != "" {
+			for _, k := range frameListFresh {
+				fmt.Println("fresh-result:", k)
+			}
+		}
 		bad := 0
 		for _, o := range obls {
 			if o.Result != "unsat" {
